@@ -368,7 +368,9 @@ pub fn gen_len(t: &mut Tape, big_per_mille: u32) -> usize {
 
 /// A TLV type byte: one time in three a registered code (those are the ones code is likely to treat specially).
 pub fn gen_kind(t: &mut Tape) -> u8 {
-    if t.chance(1, 3) {
+    if t.chance(1, 10) {
+        *t.pick(&gen::KNOWN_UNREGISTERED_KINDS)
+    } else if t.chance(1, 3) {
         enc::TYPE_CODES[t.below(12) as usize].1
     } else {
         t.byte()
@@ -785,6 +787,36 @@ pub fn tlv_value(kind: u8, seed: u32, len: usize) -> Vec<u8> {
     if seed == crate::engine::SEED_NESTED && len >= 3 {
         let mut v = vec![kind, ((len - 3) >> 8) as u8, (len - 3) as u8];
         v.extend(fill(7, len - 3));
+        return v;
+    }
+    if seed == crate::engine::SEED_TYPED {
+        // what this type carries in practice, in the spellings senders get slightly wrong: the AWS VPC endpoint id without its
+        // subtype byte, C strings with their terminator, an SSL container that begins with the version sub-TLV and has no
+        // client bit set, upper-case UUID text, a host name with the root dot
+        let pat: &[u8] = match kind {
+            0xEA => b"vpce-08d2bf15fac5001c9",
+            0xEE => b"\x01\x01\x00\x00\x00",
+            0xE0 => b"gcp-psc-connection-id",
+            0x01 => b"http/1.1",
+            0x02 => b"example.org.",
+            0x03 => b"\0\0\0\0",
+            0x04 => b"\0\0\0\0\0\0\0\0",
+            0x05 => b"F81D4FAE-7DEC-11D0-A765-00A0C91E6BF6",
+            0x20 => b"\x00\x00\x00\x00\x00\x21\x00\x07TLSv1.3\x22\x00\x0bexample.org",
+            0x21 => b"TLSv1.3\0",
+            0x22 => b"client.example.org\0",
+            0x23 => b"ECDHE-RSA-AES128-GCM-SHA256\0",
+            0x24 => b"SHA256\0",
+            0x25 => b"RSA2048\0",
+            0x30 => b"netns-blue\0",
+            _ => b"key=value;id=42\0",
+        };
+        let mut v: Vec<u8> = pat.iter().copied().take(len).collect();
+        // longer values: the text once, then zeros (a fixed-size field) or - for odd lengths - the text repeated
+        while v.len() < len {
+            let b = if len % 2 == 1 { pat[v.len() % pat.len()] } else { 0 };
+            v.push(b);
+        }
         return v;
     }
     fill(seed, len)
